@@ -14,6 +14,12 @@ pub mod c19;
 #[path = "/verif/harness/cweb.rs"]
 pub mod cweb;
 
+#[path = "/verif/harness/c05.rs"]
+pub mod c05;
+
+#[path = "/verif/harness/c01.rs"]
+pub mod c01;
+
 /// Native replay entry: `VERIF_REPLAY=<file.json> cargo test --lib verif_replay_entry`
 /// file = {"module": "c20", "harness": "k20_1_varint_trio", "vals": [[1,0,..],..]}
 #[cfg(all(not(kani), test))]
@@ -46,6 +52,8 @@ mod replay_entry {
         let known = match module.as_str() {
             "c20" => super::c20::replay(&harness, &mut s),
             "c19" => super::c19::replay(&harness, &mut s),
+            "c05" => super::c05::replay(&harness, &mut s),
+            "c01" => super::c01::replay(&harness, &mut s),
             "c02" => crate::raft::filestore::raftlog::verif_priv::replay(&harness, &mut s),
             "c14" => crate::naming::cluster::node_manage::verif_priv::replay(&harness, &mut s),
             _ => false,
